@@ -190,7 +190,11 @@ pub fn spawn_server(bins: &Path, cfg: &SrvCfg, dir: &Path, tag: &str, raw_pairs:
     if cfg.via_env {
         cmd.arg("ENV");
         for (k, v) in &pairs {
-            if !k.starts_with("__raw__") {
+            if let Some(hx) = v.strip_prefix("__hexbytes__") {
+                // raw bytes (not necessarily UTF-8) as the variable's value
+                use std::os::unix::ffi::OsStringExt;
+                cmd.env(env_name(k), std::ffi::OsString::from_vec(crate::prng::unhex(hx).unwrap_or_default()));
+            } else if !k.starts_with("__raw__") {
                 cmd.env(env_name(k), v);
             }
         }
